@@ -42,6 +42,43 @@ def export_def(k, e):
     return "Definition e%d : Z := b2z (qn_validbV %d%%nat %s %s %s)." % (k, e["ncomp"], sig, m, pats)
 
 
+def tree_terms(e):
+    """(stree, qtree, ptree) Coq terms of an exported tree"""
+    st = "(SNode %s [%s])" % (nested(e["sg"], 3, z), "; ".join(tree_terms(c)[0] for c in e["ch"]))
+    g = "(QNode %s [%s])" % (nested(e["q"], 2, z), "; ".join(tree_terms(c)[1] for c in e["ch"]))
+    pt = "(PNode %s [%s])" % (nested(e["supp"], 2, lambda n: "%d%%nat" % n), "; ".join(tree_terms(c)[2] for c in e["ch"]))
+    return st, g, pt
+
+
+def tree_def(k, e):
+    st, g, pt = tree_terms(e["tree"])
+    return "Definition t%d : Z := b2z (ttns_validbV %d%%nat %s %s %s %s)." % (k, e["ncomp"], st, g, pt, nested(e["qtot"], 1, z))
+
+
+def tree_file(exports):
+    body = [HEADER.replace("Model.Qn.", "Model.Qn Model.Ttns Model.TtnsQn.")]
+    for k, e in enumerate(exports):
+        body.append(tree_def(k, e))
+    body.append("Eval vm_compute in [%s]." % "; ".join("t%d" % k for k in range(len(exports))))
+    return "\n".join(body) + "\n"
+
+
+def mask_def(k, c):
+    m = "(@Build_meta VLab %s %d%%nat %s %s)" % (nested(c["qn"], 3, z), c["qnidx"], nested(c["qntot"], 1, z), "true" if c["to_right"] else "false")
+    bools = lambda depth: nested(c["mask"], depth, lambda b: "true" if b else "false")
+    if c["two"]:
+        return "Definition k%d : Z := bdiff4 (@mask2_tab VLab %s %s %s %d%%nat) %s." % (k, nested(c["sigma"][0], 2, z), nested(c["sigma"][1], 2, z), m, c["i"], bools(4))
+    return "Definition k%d : Z := bdiff3 (@mask1_tab VLab %s %s %d%%nat) %s." % (k, nested(c["sigma"][0], 2, z), m, c["i"], bools(3))
+
+
+def mask_file(cases):
+    body = [HEADER.replace("Model.Qn.", "Model.Qn Model.QnMask.")]
+    for k, c in enumerate(cases):
+        body.append(mask_def(k, c))
+    body.append("Eval vm_compute in [%s]." % "; ".join("k%d" % k for k in range(len(cases))))
+    return "\n".join(body) + "\n"
+
+
 def cases_file(exports):
     body = [HEADER]
     for k, e in enumerate(exports):
@@ -55,8 +92,9 @@ def run(ctx):
     ctx.trusted += ["export of support patterns (|x| > 1e-12 max|x| per site tensor) and labels by harness/impl/c06_num.py, rendering as Coq terms by harness/c06.py",
                     "entries below the 1e-12 relative threshold are treated as zero (floating point; modelled, not verified)",
                     "dense oracle in harness/impl/c06_num.py (search only)",
-                    "PARTIAL: chains only; trees (TTNS) are not covered by a theorem here"]
-    ok_build, log = ctx.coq_make(["Proofs/QnProofs.vo"])
+                    "tree exports by harness/impl/c06_tree.py (supports as index tuples, node labels) and mask exports by c06_mask.py",
+                    "PARTIAL: tree gauge moves / compress / 2-site updates have no label theorem (their outputs are decided by the proved-sound tree checker)"]
+    ok_build, log = ctx.coq_make(["Proofs/QnProofs.vo", "Proofs/QnMaskProofs.vo", "Proofs/TtnsQnProofs.vo"])
     ok_props = False
     if ok_build:
         ok_props, log = ctx.props("Props/C06.v")
@@ -86,6 +124,36 @@ def run(ctx):
             else:
                 stats[kk] = stats.get(kk, 0) + v
 
+    # trees and masks
+    tsh, tcase = (10, 18) if quick else (14, 200)
+    tres = ctx.impl_par("c06_tree.py", [{"seed": ctx.rng.randrange(10 ** 6), "ncases": tcase, "out": "%s/tree_%d.json" % (tmp, i)} for i in range(tsh)],
+                        timeout=900 if quick else 3000)
+    texports = []
+    tstats = {"cases": 0, "checks": 0, "ops": {}, "sector_mode": {}, "ncomp": {}, "exceptions": {}, "random_rejected": 0}
+    for (rc, r, out) in tres:
+        r = C3.load_result(r)
+        if r is None:
+            crashed.append(out[-800:])
+            continue
+        texports += r["exports"]
+        for fl in r["failures"]:
+            fails.setdefault(fl["key"], fl)
+        for kk, v in r["stats"].items():
+            if isinstance(v, dict):
+                for a_, b_ in v.items():
+                    tstats.setdefault(kk, {})
+                    tstats[kk][a_] = tstats[kk].get(a_, 0) + b_
+            else:
+                tstats[kk] = tstats.get(kk, 0) + v
+    mres = ctx.impl_par("c06_mask.py", [{"seed": ctx.rng.randrange(10 ** 6), "ncases": 40 if quick else 400, "out": "%s/mask_%d.json" % (tmp, i)} for i in range(3)], timeout=600)
+    mcases = []
+    for (rc, r, out) in mres:
+        r = C3.load_result(r)
+        if r is None or r.get("errors"):
+            crashed.append(out[-500:] if r is None else r["errors"][:2])
+            continue
+        mcases += r["cases"]
+
     # integer stream of the exact operations (labels only matter here)
     isteps = []
     ires = ctx.impl_par("c03_int.py", [{"seed": ctx.rng.randrange(10 ** 6), "ncases": 12 if quick else 60, "out": "%s/int_%d.json" % (tmp, i)} for i in range(4)], timeout=600)
@@ -100,7 +168,7 @@ def run(ctx):
     except OSError:
         pass
 
-    bad_exports, corr_err, label_mism = [], [], []
+    bad_exports, corr_err, label_mism, bad_trees, bad_masks = [], [], [], [], []
     n_eval = 0
     if ok_build:
         files = []
@@ -110,12 +178,36 @@ def run(ctx):
         peri = 20
         for i in range(0, len(isteps), peri):
             files.append(("int_%03d" % (i // peri), C3.cases_file(isteps[i:i + peri])))
+        pert = 40
+        for i in range(0, len(texports), pert):
+            files.append(("tre_%03d" % (i // pert), tree_file(texports[i:i + pert])))
+        perm = 40
+        for i in range(0, len(mcases), perm):
+            files.append(("msk_%03d" % (i // perm), mask_file(mcases[i:i + perm])))
         outs = ctx.coq_eval_many(files, timeout=900, par=14) if files else {}
         for name, _ in files:
             rc, out = outs[name]
             vals = common.parse_Z_list(out) if rc == 0 else None
             idx = int(name[4:])
-            if name.startswith("num_"):
+            if name.startswith("tre_"):
+                chunk = texports[idx * pert:(idx + 1) * pert]
+                if vals is None or len(vals) != len(chunk):
+                    corr_err.append({"file": name, "rc": rc, "out": out[-500:]})
+                    continue
+                for e, v in zip(chunk, vals):
+                    n_eval += 1
+                    if v:
+                        bad_trees.append(e)
+            elif name.startswith("msk_"):
+                chunk = mcases[idx * perm:(idx + 1) * perm]
+                if vals is None or len(vals) != len(chunk):
+                    corr_err.append({"file": name, "rc": rc, "out": out[-500:]})
+                    continue
+                for c, v in zip(chunk, vals):
+                    n_eval += 1
+                    if v:
+                        bad_masks.append((c, v))
+            elif name.startswith("num_"):
                 chunk = exports[idx * per:(idx + 1) * per]
                 if vals is None or len(vals) != len(chunk):
                     corr_err.append({"file": name, "rc": rc, "out": out[-500:]})
@@ -152,6 +244,21 @@ def run(ctx):
         ctx.violation(key, "checker qn_validbV rejects the labels of the result of `%s` (C06_qn_validb_sound does not apply; the stored labels do not describe the non-zero blocks)" % e["what"],
                       {"op": e["what"], "qn": e["qn"], "qnidx": e["qnidx"], "qntot": e["qntot"], "bond_dims": e["bond_dims"], "case": e["case"]},
                       found=True, repro=repro)
+    seen_t = set()
+    for e in bad_trees:
+        key = "tree-labels-invalid:" + e["what"].split("[")[0]
+        if key in seen_t:
+            continue
+        seen_t.add(key)
+        repro = (e["repro_lines"] + "sys.path.insert(0, '/verif/harness/impl')\nimport c06_check\nsys.exit(c06_check.tree_labels_describe_blocks(%s))\n" % e["name"])
+        ctx.violation(key, "tree checker ttns_validbV rejects the labels of the result of `%s` (C06_ttns_validb_sound does not apply; the node labels do not describe the non-zero blocks)" % e["what"],
+                      {"op": e["what"], "qtot": e["qtot"], "nnodes": e["nnodes"], "maxbond": e["maxbond"], "case": e["case"], "root_labels": e["tree"]["q"]},
+                      found=True, repro=repro)
+    if bad_masks:
+        c, v = bad_masks[0]
+        ctx.violation("corr:mask%d" % (2 if c["two"] else 1), "correspondence Model/QnMask.v (mask%d_tab) vs get_qn_mask(_get_big_qn(...)); C06_mask_update_valid no longer describes the code's mask" % (2 if c["two"] else 1),
+                      {"differing_entries": v, "cases": len(bad_masks), "qn": c["qn"], "qnidx": c["qnidx"], "qntot": c["qntot"], "to_right": c["to_right"], "site": c["i"], "impl_mask": c["mask"]},
+                      found=False)
     by_op = {}
     for st in label_mism:
         by_op.setdefault(st["op"], []).append(st)
@@ -172,12 +279,19 @@ def run(ctx):
         ctx.violation(kk, "dense oracle only: %s" % kk, fl["detail"], found=fl.get("repro") is not None, repro=fl.get("repro"))
 
     nontriv = sum(1 for e in exports if max(e["bond_dims"]) > 1 and e["what"] != "constructor")
+    nontriv += sum(1 for e in texports if e["maxbond"] > 1 and e["what"] != "constructor")
+    nontriv += sum(1 for c in mcases if 0 < c["true_entries"] < c["entries"])
     samples = [{"op": e["what"], "ncomp": e["ncomp"], "qntot": e["qntot"], "qnidx": e["qnidx"], "bond_dims": e["bond_dims"], "sigma": e["sigma"]} for e in exports[1:4]]
     return {"evaluations": n_eval, "distinct_nontrivial": nontriv,
-            "rule": "one evaluation = one result (of a constructor or numerical operation) whose exported support pattern and labels were decided by the Coq checker, or one exact-operation step whose labels were recomputed by the model; "
-                    "non-trivial = result of an operation (not the constructor) with some bond dimension > 1",
+            "rule": "one evaluation = one chain or tree result (of a constructor or numerical operation, or a changed operand) whose exported support and labels were decided by the Coq checker, "
+                    "or one exact-operation step whose labels were recomputed by the model, or one 1-site/2-site mask compared entry by entry with the model; "
+                    "non-trivial = result of an operation (not the constructor) with some bond dimension > 1, or a mask with both true and false entries",
             "samples": samples, "exhaustive": False,
             "input_distribution": {"results_checked": len(exports), "checker_rejections": len(bad_exports), "by_operation": stats["ops"], "sector_mode": stats["sector_mode"],
                                    "label_components": stats["ncomp"], "exact_operation_steps": len(isteps), "exact_label_mismatches": len(label_mism),
                                    "rejected_Mps.random_raised": stats["random_rejected"], "skipped_H_annihilates_state": stats["skipped_H_annihilates_state"],
-                                   "implementation_exceptions_not_about_labels": stats["exceptions"]}}
+                                   "implementation_exceptions_not_about_labels": stats["exceptions"],
+                                   "tree_results_checked": len(texports), "tree_checker_rejections": len(bad_trees), "tree_by_operation": tstats["ops"],
+                                   "tree_cases": tstats["cases"], "tree_oracle_checks_incl_live_objects": tstats["checks"], "tree_sector_mode": tstats["sector_mode"],
+                                   "tree_label_components": tstats["ncomp"], "tree_exceptions": tstats["exceptions"], "tree_random_rejected": tstats["random_rejected"],
+                                   "masks_compared": len(mcases), "masks_two_site": sum(1 for c in mcases if c["two"]), "mask_mismatches": len(bad_masks)}}
